@@ -19,6 +19,8 @@ var registry = map[string]func(*checks.Run) int{
 	"C12": checks.CheckC12,
 	"C13": checks.CheckC13,
 	"C14": checks.CheckC14,
+	"C15": checks.CheckC15,
+	"C16": checks.CheckC16,
 	"C17": checks.CheckC17,
 	"C18": checks.CheckC18,
 	"C19": checks.CheckC19,
